@@ -216,6 +216,9 @@ def units(tier):
             return r
         us.append(("C17.expr." + f, g))
     us.append(("C17.factor.string_builtin_preconditions", unit_string_builtin_preconditions))
+    from props import c17_hosts as HS
+    from props.common import wrap as _wrapH
+    _wrapH(us, "C17.basic_hosts.result_is_what_this_run_SAVEd", HS.unit_hosts)
     from props import c17_control as CT
     from props.common import wrap as _wrap
     _wrap(us, "C17.cmdnext.continues_the_FOR_of_its_variable", CT.unit_cmdnext)
